@@ -16,7 +16,7 @@ def regStep (acc : Ctx × List Stmt) (st : Stmt) : Ctx × List Stmt :=
   | .varDef vars _ =>
     let (ctx, ex) := vars.foldl (fun (a : Ctx × Bool) v =>
       let e := (assocGet a.1.vars v.name).isSome
-      (if !e && v.pub then { a.1 with vars := assocSet a.1.vars v.name v } else a.1, e)) (ctx, false)
+      (if !e && v.pub then { a.1 with vars := assocSet a.1.vars v.name v } else a.1, a.2 && e)) (ctx, true)
     (ctx, if ex then out else out ++ [st])
   | .funcDef name pub rets params _ =>
     let e := (assocGet ctx.funcs name).isSome
@@ -29,7 +29,7 @@ theorem registerImported_eq (ctx : Ctx) (stmts : List Stmt) : registerImported c
 theorem varFold_scopes : ∀ (vs : List Var) (a : Ctx × Bool),
     (vs.foldl (fun (a : Ctx × Bool) v =>
       let e := (assocGet a.1.vars v.name).isSome
-      (if !e && v.pub then { a.1 with vars := assocSet a.1.vars v.name v } else a.1, e)) a).1.scopes = a.1.scopes := by
+      (if !e && v.pub then { a.1 with vars := assocSet a.1.vars v.name v } else a.1, a.2 && e)) a).1.scopes = a.1.scopes := by
   intro vs
   induction vs with
   | nil => intro a; rfl
@@ -43,7 +43,7 @@ theorem varFold_scopes : ∀ (vs : List Var) (a : Ctx × Bool),
 theorem regStep_scopes (acc : Ctx × List Stmt) (st : Stmt) : (regStep acc st).1.scopes = acc.1.scopes := by
   obtain ⟨ctx, out⟩ := acc
   cases st with
-  | varDef vars vals => simp only [regStep]; exact varFold_scopes vars (ctx, false)
+  | varDef vars vals => simp only [regStep]; exact varFold_scopes vars (ctx, true)
   | funcDef name pub rets params body => simp only [regStep]; split <;> rfl
   | _ => rfl
 
